@@ -28,6 +28,11 @@ func nativeRewrites() (map[string][][2]string, error) {
 		}
 		for _, line := range strings.Split(string(b), "\n") {
 			t := strings.TrimSpace(line)
+			all := false
+			if strings.HasPrefix(t, "//verif:native-rewrite-all ") {
+				all = true
+				t = "//verif:native-rewrite " + strings.TrimPrefix(t, "//verif:native-rewrite-all ")
+			}
 			if !strings.HasPrefix(t, "//verif:native-rewrite ") {
 				continue
 			}
@@ -39,6 +44,9 @@ func nativeRewrites() (map[string][][2]string, error) {
 			parts := strings.SplitN(sp[1], " => ", 2)
 			if len(parts) != 2 {
 				continue
+			}
+			if all {
+				parts[0] = "\x00all\x00" + parts[0]
 			}
 			out[sp[0]] = append(out[sp[0]], [2]string{parts[0], parts[1]})
 		}
@@ -68,6 +76,14 @@ func writeNativeOverlay(dir string, extra map[string][]byte) (string, error) {
 		}
 		s := string(b)
 		for _, sub := range subs {
+			if strings.HasPrefix(sub[0], "\x00all\x00") {
+				old := strings.TrimPrefix(sub[0], "\x00all\x00")
+				if strings.Count(s, old) < 1 {
+					return "", fmt.Errorf("native seam: %q does not occur in %s", old, rel)
+				}
+				s = strings.ReplaceAll(s, old, sub[1])
+				continue
+			}
 			if strings.Count(s, sub[0]) != 1 {
 				return "", fmt.Errorf("native seam: %q occurs %d times in %s (expected once)", sub[0], strings.Count(s, sub[0]), rel)
 			}
